@@ -38,6 +38,16 @@ type c22DispCfg struct {
 	scripts [][]string // per entry, per stage
 }
 
+// wait: how long after the last expected publish a stage is given before it is judged quiet. The lease
+// only matters where reports get lost (short lease); elsewhere it is a minute and never expires.
+func (s c22Stage) quiet() time.Duration {
+	d := s.maxb + 30*time.Millisecond
+	if s.lease < 5*time.Second {
+		d += s.lease
+	}
+	return d
+}
+
 type c22DPubCall struct {
 	stage   int
 	attempt int
@@ -228,7 +238,7 @@ func c22DispCase(out *verifx.Out, e *c22Env, k int, dc c22DispCfg) {
 		}
 		// the dispatcher wakes on a committed enqueue (or once a second): tick it with enqueues for a key
 		// whose publishes always succeed, until every entry has made its publishes or the budget is used up
-		deadline := time.Now().Add(8*st.maxb + 8*st.lease + 4*time.Second)
+		deadline := time.Now().Add(8*st.quiet() + 6*time.Second)
 		tl := time.Now()
 		defer func() {
 			if os.Getenv("C22_DEBUG") != "" {
@@ -247,14 +257,14 @@ func c22DispCase(out *verifx.Out, e *c22Env, k int, dc c22DispCfg) {
 			if done {
 				break
 			}
-			time.Sleep(4 * time.Millisecond)
+			time.Sleep(10 * time.Millisecond)
 			_, _ = mw.PutObject(ctx, b, tick, nil, bytes.NewReader([]byte("t")), nil, nil)
 		}
 		if last {
 			// further scheduling opportunities AFTER every entry should be settled and every backoff and
 			// lease has elapsed: nothing more may be published
 			for n := 0; n < 2; n++ {
-				time.Sleep(st.maxb + st.lease + 30*time.Millisecond)
+				time.Sleep(st.quiet())
 				_, _ = mw.PutObject(ctx, b, tick, nil, bytes.NewReader([]byte("t")), nil, nil)
 				time.Sleep(40 * time.Millisecond)
 			}
@@ -286,7 +296,11 @@ func c22DispCase(out *verifx.Out, e *c22Env, k int, dc c22DispCfg) {
 			// time between the two clock readings)
 			delay := c22None
 			if c.outcome == '0' && nrel < len(rels) {
-				delay = fmt.Sprint((rels[nrel] + time.Millisecond - 1).Milliseconds())
+				d := (rels[nrel] + time.Millisecond - 1).Milliseconds()
+				if d < 0 {
+					d = 0
+				}
+				delay = fmt.Sprint(d)
 				nrel++
 			}
 			// never early: the next publish started no earlier than it was scheduled for
@@ -425,12 +439,12 @@ func runC22(args []string) {
 		st    []c22Stage
 		lossy bool
 	}{
-		{[]c22Stage{{max: 3, conc: 1, batch: 1, min: 100 * ms, maxb: 300 * ms, lease: 400 * ms}}, false},
-		{[]c22Stage{{max: 5, conc: 4, batch: 8, min: 30 * ms, maxb: 200 * ms, lease: 400 * ms}}, false},
-		{[]c22Stage{{max: 0, conc: 2, batch: 4, min: 25 * ms, maxb: 60 * ms, lease: 400 * ms}}, false},
+		{[]c22Stage{{max: 3, conc: 1, batch: 1, min: 100 * ms, maxb: 300 * ms, lease: time.Minute}}, false},
+		{[]c22Stage{{max: 5, conc: 4, batch: 8, min: 30 * ms, maxb: 200 * ms, lease: time.Minute}}, false},
+		{[]c22Stage{{max: 0, conc: 2, batch: 4, min: 25 * ms, maxb: 60 * ms, lease: time.Minute}}, false},
 		// lost reports: worker dies between claim and report / ReleaseClaim, DeadLetter, Delete fail; short lease
-		{[]c22Stage{{max: 2, conc: 2, batch: 4, min: 30 * ms, maxb: 60 * ms, lease: 90 * ms}}, true},
-		{[]c22Stage{{max: 4, conc: 1, batch: 2, min: 25 * ms, maxb: 80 * ms, lease: 70 * ms}}, true},
+		{[]c22Stage{{max: 2, conc: 1, batch: 1, min: 30 * ms, maxb: 60 * ms, lease: 250 * ms}}, true},
+		{[]c22Stage{{max: 4, conc: 1, batch: 1, min: 25 * ms, maxb: 80 * ms, lease: 250 * ms}}, true},
 	}
 	for i := range disp {
 		i := i
@@ -444,7 +458,7 @@ func runC22(args []string) {
 	// 12: MaxAttempts is lowered while entries with more attempts are pending: three failures under an unlimited
 	// dispatcher, then a dispatcher with MaxAttempts = 2
 	run(uint64(120), func(r *verifx.Rng) {
-		dc := c22DispCfg{stages: []c22Stage{{max: 0, conc: 4, batch: 8, min: 250 * ms, maxb: 250 * ms, lease: 400 * ms}, {max: 2, conc: 2, batch: 4, min: 30 * ms, maxb: 60 * ms, lease: 90 * ms}}}
+		dc := c22DispCfg{stages: []c22Stage{{max: 0, conc: 4, batch: 8, min: 250 * ms, maxb: 250 * ms, lease: time.Minute}, {max: 2, conc: 1, batch: 1, min: 30 * ms, maxb: 60 * ms, lease: 250 * ms}}}
 		for _, s2 := range []string{"", "0", "00", "1", "01", "L0", "L1", "K", "0L", "000"} {
 			dc.scripts = append(dc.scripts, []string{"000", s2})
 		}
